@@ -24,7 +24,7 @@ RULE = ('mother compartments with 16 variables (two of them declared only by an 
         'independence phase applied >=2 in-place updates; distinct = distinct case spec. A direct grid over '
         'divider functions accompanies every case.')
 PLAN = {'quick': {'n': 4000, 'min_cases': 300}, 'thorough': {'n': 40000, 'min_cases': 5000}}
-REQUIRED_ORACLES = ['relation.outside_declared', 'relation.split_int', 'relation.split_float', 'relation.split_dict', 'relation.binomial',
+REQUIRED_ORACLES = ['relation.branch_dict_form', 'relation.outside_declared', 'relation.split_int', 'relation.split_float', 'relation.split_dict', 'relation.binomial',
                     'relation.set', 'relation.zero', 'relation.set_value', 'explicit_initial_state',
                     'defaults_complete', 'mother_removed', 'outside_unchanged', 'separate_instances',
                     'independence', 'contract.split', 'contract.split_dict', 'contract.binomial',
@@ -117,6 +117,12 @@ def fn_divider(value, state):
     return [value + x, value - x]
 
 
+def branch_divider_cfg(value, config):
+    """branch-level divider given in dictionary form with a config: shares by the configured weights."""
+    w = config['w']
+    return [{'a': value['a'] * w, 'b': value['b']}, {'a': value['a'], 'b': value['b'] * w}]
+
+
 def branch_divider(value):
     """branch-level divider: daughter 1 keeps 'a', daughter 2 keeps 'b'."""
     return [{'a': value['a'], 'b': 0}, {'a': 0, 'b': value['b']}]
@@ -153,6 +159,8 @@ def gen(r, tier, i):
         'nodiv': r.randint(0, 99),
         'fnv': r.randint(10, 99),
         'grp': {'a': r.randint(1, 99), 'b': r.randint(1, 99)},
+        'pool': {'q1': r.randint(1, 99), 'q2': r.randint(100, 199), 'q3': r.randint(200, 299)},
+        'grp2': {'a': r.randint(1, 99), 'b': r.randint(1, 99)},
         'lst': [r.randint(0, 9) for _ in range(r.randint(0, 3))],
         'arr': [r.randint(0, 9), r.randint(0, 9)],
         'dv': {'m%d' % j: {'n': j} for j in range(r.randint(0, 2))},
@@ -207,6 +215,9 @@ def run(spec):
             'nodiv': {'_default': 0},
             'fnv': {'_default': 0, '_divider': {'divider': fn_divider, 'topology': {'x': ('..', 'z')}}},
             'grp': {'_divider': branch_divider, 'a': {'_default': 0}, 'b': {'_default': 0}},
+            # dictionary-form dividers on branches: a registered name, and a function with config
+            'pool': {'_divider': {'divider': 'split_dict'}, 'q1': {'_default': 0}, 'q2': {'_default': 0}, 'q3': {'_default': 0}},
+            'grp2': {'_divider': {'divider': branch_divider_cfg, 'config': {'w': 3}}, 'a': {'_default': 0}, 'b': {'_default': 0}},
             'lst': {'_default': [], '_updater': 'vmon_inplace_extend'},
             'arr': {'_default': np.array([0, 0]), '_updater': 'vmon_inplace_add'},
             'dv': {'_default': {}, '_updater': 'dict_value'},
@@ -456,6 +467,10 @@ def relations(V, mb, d1, d2, init1, init2, spec, mother):
     chk('relation.custom_topology', 'fnv', d1['fnv'] == mb['fnv'] + mb['z'] and d2['fnv'] == mb['fnv'] - mb['z'])
     chk('relation.branch_divider', 'grp', d1['grp'] == {'a': mb['grp']['a'], 'b': 0} and
         d2['grp'] == {'a': 0, 'b': mb['grp']['b']})
+    pm = mb['pool']
+    chk('relation.branch_dict_form', 'pool', all(sorted((d1['pool'][k], d2['pool'][k])) == [0, pm[k]] for k in pm))
+    chk('relation.branch_dict_form', 'grp2', d1['grp2'] == {'a': mb['grp2']['a'] * 3, 'b': mb['grp2']['b']} and
+        d2['grp2'] == {'a': mb['grp2']['a'], 'b': mb['grp2']['b'] * 3})
     if spec['explicit_processes']:
         V.check('defaults_complete', d1.get('extra') == spec['extra_default'] and d2.get('extra') == spec['extra_default'],
                 lambda: ('variable declared only by the daughter processes lacks its default', d1.get('extra'), d2.get('extra')))
